@@ -666,7 +666,15 @@ pub fn classify(m: &Mismatch, p0: &Snap, p1: &Snap, op: &str, committed: &BTreeS
                     }
                 } else if gone.iter().all(|a| committed.contains(*a)) {
                     "ancestor-committed-while-descendant-stays"
-                } else if gone.iter().any(|a| expired.contains(*a)) {
+                } else if gone.iter().any(|a| expired.contains(*a))
+                    && !gone
+                        .iter()
+                        .filter(|g| !committed.contains(**g))
+                        .all(|g| gone.iter().any(|c| committed.contains(*c) && p0.closure(c, true).contains(*g)))
+                {
+                    // (an expired ancestor above a transaction committed by the same block is the listed
+                    // cut-link finding below: the commit removed the only link, the expiry that follows
+                    // cannot reach the descendant any more)
                     "ancestor-expired-while-descendant-stays"
                 } else if gone.iter().any(|g| !committed.contains(*g) && gone.iter().any(|c| committed.contains(*c) && p0.closure(c, true).contains(*g))) {
                     // a committed transaction sat between the entry and an ancestor that was then
